@@ -253,3 +253,74 @@ func readOrdinal(view *ssa.Function, c *ssa.Call) int {
 	}
 	return n
 }
+
+// OUTDIRECT — "every whole event of a truncated stream is written before the error is returned"
+// has a structural necessary condition at the stream entry point: what the item decoders write
+// reaches the caller's writer even when a later item panics. Either the per-event decoder is handed
+// the caller's writer itself, or a *bufio.Writer around it whose Flush is deferred (it then runs on
+// the panic path too). Any other intermediate writer is reported as undecided.
+func ruleOutDirect(r *Run, p *Prog) {
+	rule := "OUTDIRECT"
+	many := p.Func(cborRel, "Cbor2JsonManyObjects")
+	one := p.Func(cborRel, "cbor2JsonOneObject")
+	if !r.Anchor(many != nil && one != nil, rule, "cbor.Cbor2JsonManyObjects / cbor2JsonOneObject") {
+		return
+	}
+	dstIdx := -1
+	for i, par := range many.Params {
+		if types.TypeString(par.Type(), nil) == "io.Writer" {
+			dstIdx = i
+		}
+	}
+	if dstIdx < 0 {
+		r.Fail(rule, FnName(many)+"/writer-param", p.Pos(many.Pos()), "the stream entry point has no io.Writer parameter")
+		return
+	}
+	v := p.View(many, "keep-one-object", func(g *ssa.Function) bool { return g == one })
+	dst := v.Params[dstIdx]
+	n := 0
+	eachInstr(v, func(b *ssa.BasicBlock, i int, in ssa.Instruction) {
+		c, ok := in.(*ssa.Call)
+		if !ok || staticCallee(&c.Call) != one {
+			return
+		}
+		var w ssa.Value
+		for _, a := range c.Call.Args {
+			if types.TypeString(a.Type(), nil) == "io.Writer" {
+				w = a
+			}
+		}
+		if w == nil {
+			return
+		}
+		n++
+		okc, why := false, ""
+		switch {
+		case w == ssa.Value(dst):
+			okc, why = true, "the item decoder writes to the caller's writer itself: completed events are out before a later item can fail"
+		default:
+			inner := stripIface(w)
+			bc, isCall := inner.(*ssa.Call)
+			if isCall && (isCallTo(&bc.Call, "bufio.NewWriter") || isCallTo(&bc.Call, "bufio.NewWriterSize")) && len(bc.Call.Args) > 0 && bc.Call.Args[0] == ssa.Value(dst) {
+				// Flush must be deferred (runs when an item decoder panics)
+				deferred := false
+				eachInstr(v, func(bb *ssa.BasicBlock, k int, x ssa.Instruction) {
+					if d, ok := x.(*ssa.Defer); ok && isCallTo(&d.Call, "(*bufio.Writer).Flush") && len(d.Call.Args) == 1 && d.Call.Args[0] == inner && bb.Dominates(c.Block()) {
+						deferred = true
+					}
+				})
+				if deferred {
+					okc, why = true, "buffered writer around the caller's writer with a deferred Flush (runs on the error path too)"
+				} else {
+					why = "the item decoders write into a bufio.Writer that is flushed only on the normal return: when a later event is truncated or malformed the events decoded before it are lost with the buffer"
+				}
+			} else {
+				why = "the item decoders write to " + descr(w) + ", not to the caller's writer: cannot determine that completed events reach it when a later event fails (undecided)"
+			}
+		}
+		r.Ob(rule, FnName(many)+"/events-reach-writer", p.Pos(c.Pos()), okc, true, why)
+	})
+	if n == 0 {
+		r.Fail(rule, FnName(many)+"/decode-call", p.Pos(many.Pos()), "no call of the per-event decoder found in the stream entry point")
+	}
+}
